@@ -5,6 +5,9 @@
    The decoder is called after every read until it asks for more or fails (as FramedRead does). *)
 EXTENDS KWire, Sequences, Json, IOUtils, TLC
 Rec == ndJsonDeserialize(IOEnv.TRACE)
+\* failures are also tallied (registers 21 / 22) so that the orchestrator can detect lost output lines
+Tally(r) == TLCSet(r, TLCGet(r) + 1)
+ASSUME TLCSet(21, 0) /\ TLCSet(22, 0)
 VARIABLE l
 
 \* fold over the steps; st = [fed, cons, done, dead, l1, l2]
@@ -31,7 +34,8 @@ CaseL2(c) == Final(c).l2
 Init == l = 1
 Next == l <= Len(Rec) /\ l' = l + 1
 Judge == l <= Len(Rec) =>
-           /\ (CaseL1(Rec[l]) \/ PrintT(<<"L1FAIL", "C14", l, "framing">>))
-           /\ (CaseL2(Rec[l]) \/ PrintT(<<"L2DRIFT", "C14", l>>))
-Consumed == TLCGet("stats").distinct = Len(Rec) + 1 \/ PrintT(<<"NOTCONSUMED", TLCGet("stats").distinct, Len(Rec)>>)
+           /\ (CaseL1(Rec[l]) \/ (Tally(21) /\ PrintT(<<"L1FAIL", "C14", l, "framing">>)))
+           /\ (CaseL2(Rec[l]) \/ (Tally(22) /\ PrintT(<<"L2DRIFT", "C14", l>>)))
+Consumed == /\ PrintT(<<"SUMMARY", TLCGet(21), TLCGet(22)>>)
+            /\ (TLCGet("stats").distinct = Len(Rec) + 1 \/ PrintT(<<"NOTCONSUMED", TLCGet("stats").distinct, Len(Rec)>>))
 =============================================================================
